@@ -125,6 +125,50 @@ def oracle(ctx, seeds=None):
                 res.fail(name + ':aliased-stage-slopes', "one step with a right-hand side that reuses its output buffer differs from the step with fresh arrays by %g" %
                          float(np.max(np.abs(out[0] - out[1]))), dict(cls=name, kind='buffered-rhs', c=c, q0=list(q0), t0=t0, dt=dt))
                 break
+        # (1c) "all dt": a step with an ARRAY of per-cell steps advances every cell with ITS OWN step (cell-decoupled autonomous RHS:
+        #      cell i of the array step == the scalar step dt_i of that cell alone), for ordinary arrays, for arrays that are almost
+        #      uniform (relative spread 1e-6) and in micro time units (dt * 2^-40, right-hand side * 2^40)
+        for k in range(ctx.n(4, 24)):
+            n = 4
+            q0 = ctx.rng.uniform(0.5, 1.5, n)
+            kind = ['ordinary', 'almost-uniform', 'micro-units', 'micro-units-almost-uniform'][k % 4]
+            dts = ctx.rng.uniform(0.05, 0.4, n) if 'almost' not in kind else 0.2 * (1.0 + 2.0 ** -20 * np.arange(1, n + 1))
+            s_ = 2.0 ** -40 if 'micro' in kind else 1.0
+            c = [0.3 / s_, 0.0, -0.7 / s_, 0.0, 0.0]
+            def run1c():
+                f = impl.field.fdata(FakeModel(), FakeMesh(n), [q0.copy()], t=0.0)
+                cls(FakeMesh(n), RecDisc(c, n)).step(f, dts * s_)
+                alone = []
+                for i_ in range(n):
+                    g = impl.field.fdata(FakeModel(), FakeMesh(1), [q0[i_:i_ + 1].copy()], t=0.0)
+                    cls(FakeMesh(1), RecDisc(c, 1)).step(g, float(dts[i_] * s_))
+                    alone.append(float(g.data[0][0]))
+                return np.array(f.data[0], dtype=float).copy(), np.array(alone)
+            ok, out = impl.guarded(run1c)
+            res.case((name, 'dt-array', kind))
+            if not ok:
+                res.fail(name + ':raised', out, dict(cls=name, kind='dt-array:' + kind)); break
+            if not np.all(np.abs(out[0] - out[1]) <= 1e-13 * np.abs(out[1])):
+                res.fail(name + ':dt-array', "one step with the per-cell steps %r (%s): cell values %r, the scalar step of each cell alone gives %r" % ((dts * s_).tolist(), kind, out[0].tolist(), out[1].tolist()),
+                         dict(cls=name, kind='dt-array:' + kind, q0=q0.tolist(), dt=(dts * s_).tolist(), c=c)); break
+        # (1d) "for every right-hand side ... one step": the step of a state does not depend on what the solver object stepped
+        #      before - in particular another state at the SAME time (ensembles, perturbed twins)
+        for k in range(ctx.n(3, 12)):
+            c = [float(x) for x in ctx.rng.uniform(-1, 1, 5)]
+            qa = ctx.rng.uniform(-1, 1, 3); qb = qa * 2.0 if k % 2 else qa + 1e-3; t0 = float(ctx.rng.uniform(0, 2)); dt = float(ctx.rng.uniform(0.05, 0.5))
+            def run1d():
+                s_ = cls(FakeMesh(3), RecDisc(c, 3))
+                fa = impl.field.fdata(FakeModel(), FakeMesh(3), [qa.copy()], t=t0); s_.step(fa, dt)
+                fb = impl.field.fdata(FakeModel(), FakeMesh(3), [qb.copy()], t=t0); s_.step(fb, dt)
+                fr = impl.field.fdata(FakeModel(), FakeMesh(3), [qb.copy()], t=t0); cls(FakeMesh(3), RecDisc(c, 3)).step(fr, dt)
+                return np.array(fb.data[0], dtype=float).copy(), np.array(fr.data[0], dtype=float).copy()
+            ok, out = impl.guarded(run1d)
+            res.case((name, 'second-state-same-time', k))
+            if not ok:
+                res.fail(name + ':raised', out, dict(cls=name, kind='second-state-same-time')); break
+            if not np.array_equal(out[0], out[1]):
+                res.fail(name + ':depends-on-previous-step', "the step of a state on a solver object that has just stepped ANOTHER state from the same time differs from the step on a fresh object by %g" %
+                         float(np.max(np.abs(out[0] - out[1]))), dict(cls=name, kind='second-state-same-time', c=c, qa=qa.tolist(), qb=qb.tolist(), t0=t0, dt=dt)); break
         # (2) observed order on y' = -2 t y^2
         def order():
             errs = []
